@@ -99,6 +99,11 @@ func Families() []Named {
 		// a rule with more than nine right-hand-side symbols ($10, $11 in actions)
 		{"rhs-11", Parse("S", abc[:2], "S: TA TB TA TB TA TB TA TB TA TB TA | TB")},
 		{"prec-literal", Parse("E", []string{"TA"}, "E: E '-' E | E '*' E | '-' E %prec '*' | TA").WithPrec("left '-'", "left '*'")},
+		// identifiers that differ only in letter case
+		{"case-twins", Parse("S", []string{"TA", "Ta", "tA"}, "S: s TA | Ta ; s: TA Ta | tA")},
+		// a nonterminal that is nullable only through a non-empty rule written BEFORE the rules that make
+		// its parts nullable (several fixpoint passes needed), last production not an epsilon rule
+		{"nullable-late", Parse("S", abc[:4], "S: X N TA ; N: M ; M: A B ; A: | TB ; B: | TC ; X: TD")},
 		{"nonassoc-cmp", Parse("E", []string{"TA"}, "E: E '<' E | E '+' E | TA").WithPrec("nonassoc '<'", "left '+'")},
 	}
 }
